@@ -5,6 +5,10 @@
 //!   codec-rand <prop> <seed> <n> <out.ndjson>  record randomly driven codec calls for TLC validation (binding B)
 //!   sim <scenarios.ndjson> <out.ndjson>        run TLC-generated scenarios over the simulated QUIC transport
 mod codec;
+mod exec;
+mod proj;
+mod sim;
+mod simquic;
 mod util;
 
 use std::process::exit;
@@ -20,6 +24,7 @@ fn main() {
     let r = match args[1].as_str() {
         "codec" => codec::run_vectors(&args[2], &args[3]),
         "codec-rand" => codec::run_random(&args[2], args[3].parse().unwrap_or(0), args[4].parse().unwrap_or(1000), &args[5]),
+        "sim" => sim::run_scenarios(&args[2], &args[3]),
         other => Err(format!("unknown sub-command {other}")),
     };
     if let Err(e) = r {
